@@ -75,7 +75,7 @@ type pgen struct {
 	texts      []string
 	noErr      bool // avoid constructs that may fail the render
 	captures   int
-	inRow      int // directly inside a tablerow body
+	inRow      int  // directly inside a tablerow body
 	rich       bool // use the extended filter pool
 	flAssigned bool
 	hasInc     bool // an includable file inc.liq exists
